@@ -47,7 +47,7 @@ def dumpRef (a : Arch) (c : SecCtx) (delta : Nat) (s : RefState) : String :=
   s!"X pc={delta + c.addr s.pos} r={joinN regs} o={joinN outs} ov={joinB ov} ir={joinB ir} d={joinN d}"
 
 def facts (src : Source) : String :=
-  let used := src.cps.filterMap fun c => src.sections.reverse.find? (·.name == c.romcode)
+  let used := src.procs.filterMap fun c => src.sections.reverse.find? (·.name == c.romcode)
   let ef := used.all fun s => entryFirst s.lines
   let lj := used.any fun s => s.lines.any fun l => (l.op == "j" || l.op == "jmp" || l.op == "jz") && l.args.any (fun a => match a with | .num _ => true | _ => false)
   s!"P entryfirst={if ef then 1 else 0} litjump={if lj then 1 else 0}"
@@ -69,7 +69,7 @@ def step (st : St) (line : String) : St × List String :=
     let k := nat! i
     match st.parsed, st.bm with
     | some src, some bm =>
-      match src.cps[k]?, bm.cps[k]? with
+      match src.procs[k]?, bm.cps[k]? with
       | some c, some cp =>
         match src.sections.reverse.find? (·.name == c.romcode) with
         | some sec =>
@@ -86,12 +86,12 @@ def step (st : St) (line : String) : St × List String :=
   | ["BSIM"] =>
     match st.parsed, st.bm with
     | some src, some bm =>
-      let secs := src.cps.map fun c => src.sections.reverse.find? (·.name == c.romcode)
+      let secs := src.procs.map fun c => src.sections.reverse.find? (·.name == c.romcode)
       let ctxs := secs.filterMap fun o => o.map (SecCtx.of src)
       let inits := ctxs.filterMap refInit
-      if ctxs.length == src.cps.length && inits.length == ctxs.length then
+      if ctxs.length == src.procs.length && inits.length == ctxs.length then
         let deltas := ctxs.map fun c => if st.fix && !(entryFirst c.lines) then 1 else 0
-        ({ st with net := some (ctxs, netOf src, inits, bm.cps.map (·.arch), deltas), netFirst := true, sim := none, dead := false }, [line])
+        ({ st with net := some (ctxs, netOf src (ctxs.map fun c => srcPorts c.lines), inits, bm.cps.map (·.arch), deltas), netFirst := true, sim := none, dead := false }, [line])
       else ({ st with net := none, sim := none }, [line, "BX noentry"])
     | _, _ => ({ st with net := none, sim := none }, [line])
   | "BT" :: _ => (st, [line])
